@@ -85,8 +85,8 @@ func cmdCheck(args []string) int {
 	fs := flag.NewFlagSet("check", flag.ExitOnError)
 	prop := fs.String("p", "", "property id")
 	tier := fs.String("tier", "quick", "quick|thorough")
-	timeout := fs.Int("timeout", 10, "per-solver timeout in seconds")
-	jobs := fs.Int("j", 16, "parallel solver jobs")
+	timeout := fs.Int("timeout", 30, "per-solver timeout in seconds")
+	jobs := fs.Int("j", 8, "parallel obligations (each races three solvers)")
 	fs.Parse(args)
 	if *prop == "" {
 		fmt.Fprintln(os.Stderr, "check: -p Cxx required")
@@ -258,6 +258,27 @@ func cmdCheck(args []string) int {
 		os.WriteFile(rp, b, 0o644)
 		vioLines = append(vioLines, fmt.Sprintf("VIOLATION property=%s replay=%s%s", pid, rp, suffix))
 	}
+	// slowest discharged obligations (stability margin)
+	type slow struct {
+		n string
+		s float64
+	}
+	var slows []slow
+	for _, vc := range vcs {
+		for _, o := range vc.obls {
+			if o.OK && !o.Cover {
+				slows = append(slows, slow{o.Name, o.Result.Seconds})
+			}
+		}
+	}
+	sort.Slice(slows, func(i, j int) bool { return slows[i].s > slows[j].s })
+	var slowest []string
+	for i, sl := range slows {
+		if i >= 5 {
+			break
+		}
+		slowest = append(slowest, fmt.Sprintf("%.2fs %s", sl.s, sl.n))
+	}
 	wall := time.Since(start).Seconds()
 	// evidence
 	var tb []string
@@ -283,6 +304,7 @@ func cmdCheck(args []string) int {
 			"solver_time_s":            round2(solverTime),
 			"load_ssa_s":               round2(loadS),
 			"cover_queries":            covers,
+			"slowest_discharged":       slowest,
 			"out_of_reach":             outOfReach,
 			"samples":                  samples,
 			"known_findings_seen":      knownSeen,
